@@ -16,6 +16,7 @@ from ..analysis import (
     SyntaxCheck,
 )
 from ..ast.fpyast import *
+from ..ast.visitor import DefaultVisitor
 from ..env import ForeignEnv
 from ..function import Function
 from ..number import REAL
@@ -53,11 +54,40 @@ class _Ctx:
         return _Ctx(stmts=[], is_ctx_expr=False)
 
 
+# expressions whose value depends on what a list holds when they are evaluated
+_READS_CELLS = (
+    ListRef, ListSlice, ListComp, Sum, AMax, AMin, AnyOf, AllOf, Zip, Enumerate,
+    Call,
+)
+
+
+class _HasIndexedAssign(DefaultVisitor):
+    """Whether a function body assigns to a list cell."""
+
+    def __init__(self):
+        self.found = False
+
+    def _visit_indexed_assign(self, stmt: IndexedAssign, ctx: None):
+        self.found = True
+
+
+def _writes_cells(func: FuncDef) -> bool:
+    """Whether calling *func* may write a list cell its caller can see: it, or a
+    function it calls, has an indexed assignment."""
+    for fdef in CallGraph.analyze(func).nodes:
+        v = _HasIndexedAssign()
+        v._visit_function(fdef, None)
+        if v.found:
+            return True
+    return False
+
+
 def _refuses(
     e: Call, *,
     in_while_cond: bool,
     in_comprehension: bool = False,
     conditional: bool = False,
+    out_of_order: bool = False,
 ) -> str | None:
     """Why the call *e* cannot be inlined, or `None` where it can.
 
@@ -81,6 +111,12 @@ def _refuses(
             f'inlining `{e.fn.name}` here would run its body unconditionally, '
             f'where the operand holding the call is evaluated only if an '
             f'earlier operand says so'
+        )
+    if out_of_order:
+        return (
+            f'inlining `{e.fn.name}` here would splice its body ahead of the '
+            f'operands this statement evaluates before the call, and one of '
+            f'the two writes list cells the other may read'
         )
     # inlining rewrites the trailing return into an assignment to a temp (see
     # `_replace_ret`): none leaves nothing to rewrite, and several would emit
@@ -140,9 +176,24 @@ class _FuncInline(SiteRewriter):
             d.name for d in self.def_use.defs
             if not (isinstance(d, AssignDef) and d.is_free)
         }
+        # what the statement being visited has evaluated so far: something that
+        # reads list cells, and a call that may write them
+        self._read = False
+        self._wrote = False
+        self._writers: dict[FuncDef, bool] = {}
         self.env = func.env.copy()
 
     def _visit_call(self, e: Call, ctx: _Ctx):
+        out = self._visit_call_site(e, ctx)
+        if isinstance(e.fn, Function) and self._writes(e.fn):
+            # whatever became of this call, the statement has now evaluated
+            # it.  A listing inlines nothing, so whether a call is a site
+            # cannot depend on what else is inlined: every call counts as
+            # staying where it is
+            self._wrote = True
+        return out
+
+    def _visit_call_site(self, e: Call, ctx: _Ctx):
         if not isinstance(e.fn, Function):
             # not calling a function so no inlining
             return super()._visit_call(e, ctx)
@@ -156,6 +207,10 @@ class _FuncInline(SiteRewriter):
             in_while_cond=ctx.in_while_cond,
             in_comprehension=ctx.in_comprehension,
             conditional=ctx.conditional,
+            # the arguments are bound ahead of the statement along with the body
+            out_of_order=self._wrote or (
+                self._read and (self._writes(e.fn) or self._args_write(e))
+            ),
         )
         if reason is not None:
             self.refused.append((e, reason))
@@ -244,6 +299,32 @@ class _FuncInline(SiteRewriter):
         return Var(t, e.loc)
 
 
+    def _writes(self, fn: Function) -> bool:
+        if fn.ast not in self._writers:
+            self._writers[fn.ast] = _writes_cells(fn.ast)
+        return self._writers[fn.ast]
+
+    def _args_write(self, e: Call) -> bool:
+        """Whether evaluating the arguments of *e* may write a list cell."""
+        calls: list[Call] = []
+
+        class _Calls(DefaultVisitor):
+            def _visit_call(self, c: Call, ctx: None):
+                calls.append(c)
+                super()._visit_call(c, ctx)
+
+        for arg in e.args:
+            _Calls()._visit_expr(arg, None)
+        return any(
+            isinstance(c.fn, Function) and self._writes(c.fn) for c in calls
+        )
+
+    def _visit_expr(self, e: Expr, ctx: _Ctx):
+        out = super()._visit_expr(e, ctx)
+        if isinstance(e, _READS_CELLS):
+            self._read = True
+        return out
+
     def _visit_list_comp(self, e: ListComp, ctx: _Ctx):
         # only the first iterable is evaluated once, ahead of the elements
         per_elt = replace(ctx, in_comprehension=True)
@@ -297,6 +378,8 @@ class _FuncInline(SiteRewriter):
         block_ctx = _Ctx.default()
         for pos, stmt in enumerate(block.stmts):
             self._site = (block, pos)
+            # nothing of this statement has been evaluated yet
+            self._read = self._wrote = False
             before = len(block_ctx.stmts)
             stmt, _ = self._visit_statement(stmt, block_ctx)
             block_ctx.stmts.append(stmt)
